@@ -498,6 +498,11 @@ Proof.
     + apply (G (Node lit None (log n) (role n) (votes n)) [TermAndVote lit None]); [|exact H].
       cbn [term voted]. apply tv1_gt. exact Hlt.
     + apply (G n []); [reflexivity|exact H].
+  - (* PreVote *)
+    destruct (N.ltb_spec (term n) t) as [Hlt|Hge].
+    + inversion H; subst; cbn [term voted]. apply tv1_gt. exact Hlt.
+    + destruct (granted && (t =? term n)); inversion H; subst; cbn [term voted]; [|reflexivity].
+      apply tv1_gt. lia.
 Qed.
 
 (* ======================================================================== *)
@@ -659,6 +664,10 @@ Proof.
     + apply (G (Node lit None (log n) (role n) (votes n)) [TermAndVote lit None]); [reflexivity| |exact H].
       right. eexists. eexists. reflexivity.
     + apply (G n []); [reflexivity|left; reflexivity|exact H].
+  - (* PreVote *)
+    repeat match type of H with
+           | context [if ?b then _ else _] => destruct b
+           end; inversion H; subst; cbn [log app]; (apply log_clause_same; [exact C|first [apply NIL|apply TV1|apply TV2]]).
 Qed.
 
 (* ======================================================================== *)
